@@ -3,6 +3,7 @@
    (after the code's own id normalisation `id_as_number`); `resps ms` are the responses of an array frame. *)
 From Coq Require Import List NArith ZArith Bool Lia Permutation.
 From JV Require Import Base.Bytes Base.Dec Model.Wire Model.ClientMgr Model.HttpBatch.
+From JV Require Import Proofs.ClientDispatchFacts.
 From JV Require Proofs.ClientMgrInv.
 Import ListNotations.
 Local Open Scope N_scope.
@@ -398,7 +399,7 @@ Theorem array_reply_ok : forall s ms s1 o,
     length filled = N.to_nat (hi - lo) /\
     forall j, (j < N.to_nat (hi - lo))%nat -> nth j filled placeholder = entry_of lo (resps ms) j.
 Proof.
-  intros s ms s1 o H Hne. unfold handle_back in H.
+  intros s ms s1 o H Hne. rewrite handle_back_now in H; unfold handle_back_ref in H.
   destruct (array_loop s ms [] None false) as [[[[s' rs] rng] got]|[s' f]] eqn:EL; [|discriminate].
   pose proof (array_loop_rng _ _ _ _ _ _ _ _ _ EL eq_refl) as [Hrs Hok]. simpl in Hrs. subst rs.
   pose proof (array_loop_frame _ _ _ _ _ _ _ _ _ EL) as [Hb Hg].
@@ -424,7 +425,7 @@ Qed.
 Theorem array_reply_fatal : forall s ms s1 o f,
   handle_back s (FArray ms) = RFatal s1 o f -> o = [] /\ batches (m s1) = batches (m s).
 Proof.
-  intros s ms s1 o f H. unfold handle_back in H.
+  intros s ms s1 o f H. rewrite handle_back_now in H; unfold handle_back_ref in H.
   destruct (array_loop s ms [] None false) as [[[[s' rs] rng] got]|[s' f']] eqn:EL.
   - pose proof (array_loop_frame _ _ _ _ _ _ _ _ _ EL) as [Hb _].
     destruct rng as [[lo hi]|].
@@ -473,7 +474,7 @@ Proof.
   intros s ms s1 o h filled H Hin.
   destruct (resps ms) as [|r0 rs0] eqn:Er.
   - (* no responses: nothing is completed *)
-    exfalso. unfold handle_back in H.
+    exfalso. rewrite handle_back_now in H; unfold handle_back_ref in H.
     destruct (array_loop s ms [] None false) as [[[[s' rs] rng] got]|[s' f]] eqn:EL; [|discriminate].
     pose proof (array_loop_rng _ _ _ _ _ _ _ _ _ EL eq_refl) as [Hrs Hok]. simpl in Hrs. rewrite Er in Hrs. subst rs.
     destruct rng as [[lo hi]|].
